@@ -141,11 +141,51 @@ CHUNK_BYTES = 350 * 1024 * 1024
 HISTORY_STARTS = ("new", "bnew", "snew")
 
 
+SELFTESTS = {}       # trace-spec module -> result of the binding self-test (written into the evidence)
+
+
+def binding_selftest(module, cfg, trace, name, env, orig_bad=()):
+    """Binding self-test (once per trace specification and process): the head of a trace the
+    specification has just ACCEPTED is corrupted in one observed field of one event and validated
+    again; the specification must reject exactly that event.  A specification that accepts the
+    corrupted trace constrains nothing (a renamed field, an action that no longer fires): tool error."""
+    from . import selftest
+    if module in SELFTESTS or os.environ.get("VERIF_NO_SELFTEST") or module not in selftest.CORRUPT:
+        return
+    head = []
+    with open(trace) as f:
+        for line in f:
+            if len(head) >= 400 and module not in selftest.WHOLE and (module not in selftest.STATEFUL or any(('"ev":"%s"' % h) in line or ('"ev": "%s"' % h) in line for h in HISTORY_STARTS)):
+                break
+            head.append(json.loads(line))
+            if len(head) >= 6000:
+                break
+    hit = selftest.CORRUPT[module](head)
+    if hit is None:
+        SELFTESTS[module] = {"skipped": "no event of the corruptible kind among the first %d" % len(head)}
+        return
+    idx, what = hit
+    if any(i == idx + 1 for i, _ in orig_bad):
+        return      # that event is rejected anyway (mutated tree / known finding): nothing to learn, try the next trace
+    cp = os.path.join(BUILD, name + ".selftest.ndjson")
+    with open(cp, "w") as f:
+        for e in head:
+            f.write(json.dumps(e) + "\n")
+    n, bad, dt = _tlc_trace_one(module, cfg, cp, name + "_selftest", 600, env)
+    os.remove(cp)
+    if not any(i == idx + 1 for i, _ in bad):
+        raise ToolError("binding self-test: %s accepted a trace in which %s (event %d of %s): the trace specification is vacuous there" % (module, what, idx + 1, os.path.basename(trace)))
+    SELFTESTS[module] = {"corruption": what, "event": idx + 1, "rejected_with_code": [c for i, c in bad if i == idx + 1][0], "other_rejections": len(bad) - 1}
+
+
 def tlc_trace(module, cfg, trace, name, timeout=1800, env=None):
     """Validates a trace; very large traces are split at history boundaries into chunks that are
     validated by separate TLC runs (ndJsonDeserialize holds a whole file in memory)."""
     if os.path.getsize(trace) <= CHUNK_BYTES:
-        return _tlc_trace_one(module, cfg, trace, name, timeout, env)
+        r = _tlc_trace_one(module, cfg, trace, name, timeout, env)
+        if len(r[1]) < 50 and not name.endswith("_selftest"):
+            binding_selftest(module, cfg, trace, name, env, r[1])
+        return r
     total, bad_all, dt_all = 0, [], 0.0
     part, size, k, stateful = [], 0, 0, None
     def flush():
@@ -252,6 +292,9 @@ class Report:
 
 def write_evidence(prop, tier, seed, coverage, assumptions, wall_s, violations, level="model_checking"):
     os.makedirs(EVIDENCE, exist_ok=True)
+    if SELFTESTS:
+        coverage = dict(coverage)
+        coverage["binding_selftests"] = dict(SELFTESTS)
     ev = {"property_id": prop, "tier": tier, "seed": seed, "level": level, "coverage": coverage,
           "assumptions": assumptions, "wall_s": round(wall_s, 2), "violations": violations}
     json.dump(ev, open(os.path.join(EVIDENCE, prop + ".json"), "w"), indent=1)
